@@ -369,7 +369,62 @@ class McastHarness:
         it = self.setup(ctx)
         w = self.w
         src = Opaque("source", "source")
-        which = ("publish", "replay", "publish_value", "share")[ctx.choose(4, "operator")]
+        which = ("publish", "replay", "publish_value", "share", "mapper-forms")[ctx.choose(5, "operator")]
+        if which == "mapper-forms":
+            # publish(mapper) / publish_value(v, mapper) / replay(mapper, n, w): multicast(subject_factory=F, mapper=mapper) where every call of F
+            # makes a NEW subject of the operator's kind with the operator's arguments (one subject per subscription of the result)
+            op = ("publish", "publish_value", "replay")[ctx.choose(3, "which mapper form")]
+            mapper = Opaque("callback", "mapper")
+            seen = []
+
+            def hook(it_, fn_, args, kwargs):
+                fn = fn_.func if isinstance(fn_, BoundMethod) else fn_
+                if isinstance(fn, Closure) and fn.module is not None and fn.module.name == "reactivex.operators" and fn.qualname == "multicast":
+                    seen.append((list(args), dict(kwargs)))
+                    return lambda_op
+                if getattr(fn_, "name", None) == "ReplaySubject" and hasattr(fn_, "node"):
+                    s_ = Opaque("subject", f"replay_subject#{len(made)}")
+                    made.append((s_, list(args), dict(kwargs)))
+                    return s_
+                return NOTSET
+            made = []
+            lambda_op = Native("multicast-operator", lambda it_, a, k: Opaque("observable", "multicast-result", applied_to=a[0] if a else None))
+            it.call_hook = hook
+            v = ctx.fresh("initial", "val")
+            b, wnd = ctx.fresh("buffer_size", "int"), ctx.fresh("window", "int")
+            if op == "publish":
+                uid = OPS + "_publish.py::publish_"
+                f = it.module_get("reactivex.operators._publish", "publish_")
+                r = it.call(it.call(f, [mapper], {}), [src], {})
+            elif op == "publish_value":
+                uid = OPS + "_publishvalue.py::publish_value_"
+                f = it.module_get("reactivex.operators._publishvalue", "publish_value_")
+                r = it.call(it.call(f, [v, mapper], {}), [src], {})
+            else:
+                uid = OPS + "_replay.py::replay_"
+                f = it.module_get("reactivex.operators._replay", "replay_")
+                r = it.call(it.call(f, [mapper, b, wnd, self.sched], {}), [src], {})
+            ok = len(seen) == 1 and not seen[0][0] and set(seen[0][1]) == {"subject_factory", "mapper"} and seen[0][1]["mapper"] is mapper \
+                and isinstance(r, Opaque) and r.name == "multicast-result" and r.attrs.get("applied_to") is src
+            self.rec(ctx, uid + "/mapper-form/is-multicast-with-a-subject-factory-and-the-given-mapper-over-the-source", ok, detail=f"{seen!r} -> {r!r}")
+            if not ok:
+                return
+            F = seen[0][1]["subject_factory"]
+            s1 = it.call(F, [self.sched], {})
+            s2 = it.call(F, [self.sched], {})
+            if op == "replay":
+                okf = len(made) == 2 and s1 is made[0][0] and s2 is made[1][0] and len(made[0][1]) + len(made[0][2]) == 3
+                self.rec(ctx, uid + "/mapper-form/every-call-of-the-factory-makes-a-new-ReplaySubject", okf, detail=f"{made!r}")
+                if okf:
+                    a = made[0][1] + list(made[0][2].values())
+                    self.rec(ctx, uid + "/mapper-form/the-subject-gets-buffer_size-and-window", conj([same(a[0], b), same(a[1], wnd)]))
+            else:
+                cname = "Subject" if op == "publish" else "BehaviorSubject"
+                okf = isinstance(s1, Obj) and isinstance(s2, Obj) and s1.cls.name == cname and s2.cls.name == cname and s1 is not s2
+                self.rec(ctx, uid + f"/mapper-form/every-call-of-the-factory-makes-a-new-{cname}", okf, detail=f"{s1!r} {s2!r}")
+                if okf and op == "publish_value":
+                    self.rec(ctx, uid + "/mapper-form/the-subject-starts-with-the-initial-value", conj([same(s1.fields.get("value"), v), same(s2.fields.get("value"), v)]))
+            return
         if which == "publish":
             uid = OPS + "_publish.py::publish_"
             f = it.module_get("reactivex.operators._publish", "publish_")
